@@ -300,7 +300,7 @@ class MarkdownNormalizer(Renderer):
         self._in_heading: bool = False  # Track if we're rendering a heading
         self._list_spacing: ListSpacing = list_spacing
         self._current_list_tight: bool = False  # Whether current list should render tight
-        self._first_list_item: bool = False  # Whether the item being rendered is first in its list
+        self._first_item_separator: str | None = None  # Set while rendering a list's first item
 
     @override
     def __enter__(self) -> MarkdownNormalizer:
@@ -390,7 +390,8 @@ class MarkdownNormalizer(Renderer):
                 prefix = f"{element.bullet} "
                 subsequent_indent = "  "
 
-            self._first_list_item = i == 0
+            # Prefix of the line that separates the first item from the preceding block.
+            self._first_item_separator = self._second_prefix if i == 0 else None
             with self.container(prefix, subsequent_indent):
                 rendered_item = self.render(child)
                 result.append(rendered_item)
@@ -410,11 +411,11 @@ class MarkdownNormalizer(Renderer):
             else:
                 # Add the newline between paragraphs. Normally this would be an empty line but
                 # within a quote block it would be the secondary prefix, like `> `.
-                if self._first_list_item and self._second_prefix.strip():
+                if self._first_item_separator is not None and self._first_item_separator.strip():
                     # The line before a list's first item separates it from the previous
-                    # block, so it is an ordinary blank line: spell it as
-                    # render_blank_line() will when the output is formatted again.
-                    result += self._second_prefix + "\n"
+                    # block, so it is an ordinary blank line of the enclosing container:
+                    # spell it as render_blank_line() will when the output is formatted again.
+                    result += self._first_item_separator + "\n"
                 else:
                     result += self._second_prefix.rstrip() + "\n"
 
